@@ -14,6 +14,7 @@ RULE = ("random lists (length 0..12, mixed element types), tuples (0..8 fields i
         "keeps the length, zip truncates to the shorter list, slice = inclusive index range, split_on then str_join "
         "with the same separator restores the string). Out-of-range arguments are judged only where the docs define "
         "the result. distinct = distinct (helper, arguments); non-trivial = non-empty input.")
+RULE += (" " + 'schema.shaped pairs include nested tuples whose value has an extra field, lacks one, or has one of another type (`partial` applies to nested tuples too).')
 
 # model values as in refint: ("i", n) ("s", str) ("b", bool) ("n",) ("f", x) ("l", [..]) ("t", [(k, v)..])
 
